@@ -190,11 +190,11 @@ class T:
     def groupname_entry(self, name):
         return self.P("group_entry", name, self.ident("groupname", name))
 
-    def rule(self, name, generics, te):
+    def rule(self, name, generics, te, incr=False):
         kids = [self.ident("typename", name)]
         if generics:
             kids.append(self.P("generic_params", "", *[self.P("generic_param", x, self.P("id", x)) for x in generics]))
-        kids += [self.P("assign_t", "=", self.P("assign", "=")), te]
+        kids += [self.P("assign_t", "/=", self.P("assign_t_choice", "/=")) if incr else self.P("assign_t", "=", self.P("assign", "=")), te]
         return self.P("rule", name, *kids)
 
     def doc(self, *rules):
@@ -222,6 +222,11 @@ def scenarios(t):
     S.append(("second-choice", t.doc(t.rule("a", [], t.type_expr(t.type1(t.type2_ref("int")), t.type1(t.type2_ref("u2"))))), "u2"))
     S.append(("defined-later", t.doc(t.rule("a", [], ref("z")), t.rule("z", [], ref("tstr"))), None))
     S.append(("nested-generic-arg-param", t.doc(t.rule("w", ["T"], ref("v", ["T"])), t.rule("v", ["U"], ref("U"))), None))
+    # the generic parameters in scope are those of the definition that encloses the reference, also when the same name is defined
+    # again by an increment with differently named parameters
+    S.append(("increment-with-own-parameter-names", t.doc(t.rule("opt", ["T"], ref("T")), t.rule("opt", ["U"], ref("U"), incr=True)), None))
+    S.append(("increment-parameter-not-in-base-scope", t.doc(t.rule("opt", ["T"], ref("U")), t.rule("opt", ["T", "U"], ref("U"), incr=True)), "U"))
+    S.append(("base-parameter-not-in-increment-scope", t.doc(t.rule("opt", ["T"], ref("T")), t.rule("opt", ["U"], ref("T"), incr=True)), "T"))
     return S
 
 
@@ -292,6 +297,10 @@ def run_undef(f, fi, doc, prelude):
         if kind == "fn":
             if name in nested:
                 fnode = nested[name]
+                return call(fnode, dict(zip(params(fnode), args)))
+            segs = (name or "").split("::")
+            if len(segs) == 2 and segs[0] in ("Self", "RefFinder") and ("RefFinder", segs[1]) in nested:
+                fnode = nested[("RefFinder", segs[1])]       # an associated function of the nested impl
                 return call(fnode, dict(zip(params(fnode), args)))
             if name == "pest_span_to_position":
                 return ("pos", args[0][1] if isinstance(args[0], tuple) else None)
